@@ -178,3 +178,13 @@ Definition nat_to_str (n : nat) : str := N_to_str (N.of_nat n).
 Definition take := @firstn byte.
 Definition drop := @skipn byte.
 Definition slen (s : str) : nat := length s.
+
+(* Python's str comparison on byte strings (lexicographic by code point) *)
+Fixpoint str_leb (x y : str) : bool :=
+  match x, y with
+  | [], _ => true
+  | _ :: _, [] => false
+  | a :: x', b :: y' => if N.ltb (code a) (code b) then true
+                        else if N.ltb (code b) (code a) then false else str_leb x' y'
+  end.
+Definition str_geb (x y : str) : bool := str_leb y x.
